@@ -61,6 +61,7 @@ func fixed(c *hlib.Ctx) {
 	emitDiag(gridSurface(4, 4, true))
 	emitDiag(gridSurface(4, 4, false))
 	histFixed(c)
+	rn2Fixed(c)
 	// nests of non-convex components: box > thick U/C > thin U/C in its material > small shapes in
 	// the arms (the bounding-box centre of the thin one lies in the notch), 2-D and 3-D
 	for v := 0; v < 12; v++ {
